@@ -1186,10 +1186,11 @@ static int rtr_sync_receive_and_store_pdus(struct rtr_socket *rtr_socket)
 					for (unsigned int j = 0; j < i && retval == PFX_SUCCESS; j++)
 						retval = rtr_undo_update_pfx_table(rtr_socket, pfx_update_table,
 										   &(ipv4_pdus[j]));
-					if (retval == RTR_ERROR) {
+					if (retval != PFX_SUCCESS) {
 						RTR_DBG1(
 							"Couldn't undo all update operations from failed data synchronisation: Purging all records");
 						pfx_table_src_remove(rtr_socket->pfx_table, rtr_socket);
+						spki_table_src_remove(rtr_socket->spki_table, rtr_socket);
 						rtr_socket->request_session_id = true;
 					}
 					rtr_change_socket_state(rtr_socket, RTR_ERROR_FATAL);
@@ -1210,10 +1211,11 @@ static int rtr_sync_receive_and_store_pdus(struct rtr_socket *rtr_socket)
 					for (unsigned int j = 0; j < i && retval == PFX_SUCCESS; j++)
 						retval = rtr_undo_update_pfx_table(rtr_socket, pfx_update_table,
 										   &(ipv6_pdus[j]));
-					if (retval == PFX_ERROR) {
+					if (retval != PFX_SUCCESS) {
 						RTR_DBG1(
 							"Couldn't undo all update operations from failed data synchronisation: Purging all records");
 						pfx_table_src_remove(rtr_socket->pfx_table, rtr_socket);
+						spki_table_src_remove(rtr_socket->spki_table, rtr_socket);
 						rtr_socket->request_session_id = true;
 					}
 					rtr_change_socket_state(rtr_socket, RTR_ERROR_FATAL);
@@ -1240,11 +1242,11 @@ static int rtr_sync_receive_and_store_pdus(struct rtr_socket *rtr_socket)
 					     j < i && (retval == PFX_SUCCESS || retval == SPKI_SUCCESS); j++)
 						retval = rtr_undo_update_spki_table(rtr_socket, spki_update_table,
 										    &(router_key_pdus[j]));
-					// cppcheck-suppress duplicateExpression
-					if (retval == RTR_ERROR || retval == SPKI_ERROR) {
+					if (retval != SPKI_SUCCESS) {
 						RTR_DBG1(
-							"Couldn't undo all update operations from failed data synchronisation: Purging all key entries");
-						spki_table_src_remove(spki_update_table, rtr_socket);
+							"Couldn't undo all update operations from failed data synchronisation: Purging all records");
+						pfx_table_src_remove(rtr_socket->pfx_table, rtr_socket);
+						spki_table_src_remove(rtr_socket->spki_table, rtr_socket);
 						rtr_socket->request_session_id = true;
 					}
 					rtr_change_socket_state(rtr_socket, RTR_ERROR_FATAL);
